@@ -35,6 +35,7 @@ def gen_desc(verif_seed: int, i: int, tier: str = "quick") -> dict:
         p_header_param=0.4,
         p_cookie_param=0.3,
         p_no_opid=0.15,
+        ref_params=True,
     )
     if layout == "multi":
         for c in udesc["collections"]:
